@@ -5,7 +5,7 @@ POSTCONDITION Consumed
 CONSTANTS
   MinExp <- MinExpV
   MaxExp <- MaxExpV
-  MaxPrec = 2147483647
+  MaxPrec = 1073741824
   WS = 8
   DWg = 19
   KW = 19
